@@ -552,8 +552,10 @@ Variable choose : list Z -> Z.
 Variable choose_rot : list (option Z) -> option Z.
 Hypothesis HD : 2 <= D.
 
-Theorem page_numbers_nested prog out : NoDup (append_ids prog) -> run D old choose choose_rot prog = Ok out ->
-  forall k v, In (k, v) (o_log out) <-> In (k, v) (spec_log prog).
+(* every callback is called once, with the value the specification says: the two logs are
+   the same up to the order of the calls *)
+Theorem page_numbers_exact prog out : NoDup (append_ids prog) -> run D old choose choose_rot prog = Ok out ->
+  Permutation (o_log out) (spec_log prog).
 Proof.
   intros Hnd H. set (G := given_of prog).
   unfold PageTree.run in H. cbn [init_state] in H. apply bind_ok in H as ([[root1 st1] acc] & Hs & H).
@@ -578,8 +580,8 @@ Proof.
         cbn. unfold cell_ok. cbn. splits; auto; lia.
     - unfold wreq. rewrite wfold_eq. cbn. constructor; [reflexivity|constructor].
     - unfold wreq. rewrite wfold_eq. cbn. constructor; [intros []|constructor].
-    - intros x. unfold wpend. rewrite wfold_eq. cbn. reflexivity.
-    - intros k v. cbn. split; [intros []|intros (o & [] & _)]. }
+    - unfold wpend. rewrite wfold_eq. cbn. constructor.
+    - exists []. cbn. split; constructor. }
   destruct (steps_pn D old choose choose_rot G HD prog _ _ _ _ _ _ _ _ HS0 HJ0 Hs) as (P1 & Q1 & E1 & S1 & J1).
   pose proof (steps_open D old choose choose_rot G prog _ _ _ _ _ _ Hg0 eq_refl (given_of_ok prog Hnd) eq_refl Hs) as Hopen.
   destruct (steps_sim D old choose choose_rot G prog _ _ _ _ _ _ Hg0 eq_refl (given_of_ok prog Hnd) Hs) as (_ & _ & Ssim).
@@ -599,7 +601,7 @@ Proof.
   (* everything that was registered is told -1 *)
   assert (forall x, In x P1 -> (fun '(w', _) => mem_nat w' (open_ids (abs root1))) x = true) as Hall.
   { intros [j k0] Hin. apply mem_nat_in. rewrite (open_ids_root D old G _ Hg1 ltac:(congruence)).
-    destruct (J1 (fun _ => 0)) as (V & [_ _ _ J4 _]). apply J4 in Hin. exact (wpend_woids _ _ _ Hin). }
+    destruct (J1 (fun _ => 0)) as (V & [_ _ _ J4 _]). apply (Permutation_in _ J4) in Hin. exact (wpend_woids _ _ _ Hin). }
   destruct (filter_all _ P1 Hall) as [F1 F2].
   assert (filter (fun '(w', _) => negb (mem_nat w' (open_ids (abs root1)))) P1 = []) as F2'.
   { rewrite <- F2. apply filter_ext. intros [j k0]. reflexivity. }
@@ -618,18 +620,20 @@ Proof.
   assert (fst (spec_run prog) = pages) as Epages.
   { unfold spec_run. change (ItRange 0 false []) with (abs root0). change 1 with (g_wid st0). rewrite Ssim.
     cbn [fst]. apply abs_pages. }
-  intros k v. rewrite Elog, (K5 k v). unfold spec_log, spec_log_of. rewrite Epages.
+  destruct K5 as (L & PL & FL). rewrite Elog, PL. unfold spec_log, spec_log_of. rewrite Epages.
   change (ItRange 0 false []) with (abs root0). change 1 with (g_wid st0). rewrite E1.
-  rewrite in_map_iff. split.
-  - intros (o & Ho & HR). exists (k, o). split; [|exact Ho]. f_equal. destruct o as [p|]; [|symmetry; exact HR].
-    cbn [Rv] in HR. destruct HR as (pos & Hin & ->). rewrite Elay in Hin.
-    apply (index_of_combine p pos pages 0 Hndp) in Hin as (i & Ei & ->). rewrite Ei. reflexivity.
-  - intros ([k' o] & E & Ho). injection E as -> <-. exists o. split; [exact Ho|]. destruct o as [p|]; [|reflexivity].
-    cbn [Rv]. pose proof (s_res _ _ _ _ _ _ _ S2 _ _ Ho) as Hp. cbn [wpages flat_map app] in Hp. rewrite Sl in Hp. fold pages in Hp.
-    assert (exists i, index_of p pages = Some i) as (i & Ei).
-    { clear - Hp. induction pages as [|y l IH]; [destruct Hp|]. cbn. destruct (Nat.eqb_spec y p); [eauto|].
-      destruct Hp as [->|Hp]; [congruence|]. destruct (IH Hp) as (i & ->). cbn. eauto. }
-    rewrite Ei. exists i. split; [|reflexivity]. rewrite Elay. apply (index_of_combine p i pages 0 Hndp). eauto.
+  apply Permutation_refl'. clear - FL Elay Hndp. induction FL as [|[k o] [k' v] Q L [E1 E2] _ IH]; [reflexivity|].
+  cbn [map]. f_equal; [|exact IH]. cbn [fst snd] in *. subst k'. f_equal. destruct o as [p|]; [|exact E2].
+  cbn [Rv] in E2. destruct E2 as (pos & Hin & ->). rewrite Elay in Hin.
+  apply (index_of_combine p pos pages 0 Hndp) in Hin as (i & Ei & ->). rewrite Ei. reflexivity.
+Qed.
+
+(* the same entries *)
+Corollary page_numbers_nested prog out : NoDup (append_ids prog) -> run D old choose choose_rot prog = Ok out ->
+  forall k v, In (k, v) (o_log out) <-> In (k, v) (spec_log prog).
+Proof.
+  intros Hnd H k v. pose proof (page_numbers_exact prog out Hnd H) as HP.
+  split; intros Hin; [exact (Permutation_in _ HP Hin)|exact (Permutation_in _ (Permutation_sym HP) Hin)].
 Qed.
 
 End Final.
